@@ -131,6 +131,9 @@ func (r *Run) schedule(me *gor) {
 		if strings.HasPrefix(r.eng.sched, "lifo") {
 			idx = len(cs.runq) - 1
 		}
+		if strings.HasPrefix(r.eng.sched, "rnd") {
+			idx = int(r.schedRand() % uint64(len(cs.runq)))
+		}
 		next := cs.runq[idx]
 		cs.runq = append(cs.runq[:idx:idx], cs.runq[idx+1:]...)
 		cs.cur = next
@@ -163,6 +166,27 @@ func (r *Run) event() {
 		r.cancelCtx = nil
 		c.cancel(*r.global(r.eng.prog.ImportedPackage("context").Var("Canceled")))
 	}
+}
+
+// schedRand: the "rndK" policies. The schedule is a deterministic pseudo-random function of a seed in 0..K-1 that
+// is itself a case-split symbol of the path (c_sched), so one job explores K different legal schedules per input.
+func (r *Run) schedRand() uint64 {
+	if !r.schedSeeded {
+		r.schedSeeded = true
+		k := 4
+		fmt.Sscanf(strings.TrimPrefix(r.eng.sched, "rnd"), "%d", &k)
+		x := r.fresh("c_sched", bv(64))
+		r.schedState = uint64(k - 1)
+		for v := 0; v < k-1; v++ {
+			if r.branch(mkEq(x, mkBV(uint64(v), 64))) {
+				r.schedState = uint64(v)
+				break
+			}
+		}
+		r.schedState = r.schedState*0x9E3779B97F4A7C15 + 0x1234567
+	}
+	r.schedState = r.schedState*6364136223846793005 + 1442695040888963407
+	return r.schedState >> 33
 }
 
 // yield: the running goroutine goes to the back of the run queue (used by the "wyield" policies after every Write
@@ -359,8 +383,12 @@ func (r *Run) selectStmt(fr *frame, instr *ssa.Select) Value {
 	}
 	// ready cases: first ready case in source order, or in reverse source order under the "lastsel" policies
 	order := make([]int, n)
+	rot := 0
+	if strings.HasPrefix(r.eng.sched, "rnd") && n > 0 {
+		rot = int(r.schedRand() % uint64(n))
+	}
 	for i := range order {
-		order[i] = i
+		order[i] = (i + rot) % n
 		if strings.HasSuffix(r.eng.sched, "lastsel") {
 			order[i] = n - 1 - i
 		}
